@@ -372,6 +372,12 @@ def resync(chk, cls, getter, own):
             if foreign:
                 chk.bad(rule, name, "whether the read-back is resynchronised depends on remembered state (self.%s) besides the own record, the target's current demand and the granularity: a change of the target that returns to the remembered value -- or one made while the memory was not refreshed -- is never noticed, and the stale value is read back and written over it" % ", self.".join(foreign), node=getter.node, stmt="resync-remembered-state %s" % ",".join(foreign))
                 return
+            approx = sorted({x[1][1] for e in br for x in subterms(e[1]) if x[0] == "call" and x[1][0] == "glob" and x[1][1] in ("ext:math.isclose", "ext:builtins.round", "ext:math.floor", "ext:math.ceil", "ext:math.trunc", "ext:builtins.int")})
+            if approx:
+                # the decision is exact: |own - target| >= granularity.  A tolerance test (isclose is inclusive and adds a
+                # RELATIVE tolerance of 1e-9) or rounding decides differently at one granule and at large demands
+                chk.bad(rule, name, "whether the read-back is resynchronised is decided through %s instead of the exact comparison |own record - target demand| >= granularity: an outside change of exactly one granule -- or any small change at large demands (relative tolerance) -- is not noticed" % ", ".join(a.split(":")[-1] for a in approx), node=getter.node, stmt="resync-approximate %s" % ",".join(approx))
+                return
             chk.undecided(rule, name, "getter guard not recognised", node=getter.node)
             return
         _c, op, l, r = br[0][1]
@@ -475,7 +481,37 @@ def overrides(chk):
         chk.ok(rule, cls.qual, "supply, utilisation and allocation are inherited from the forwarding decorator", node=cls.node)
 
 
+def failure_paths_write_nothing(chk):
+    """O6.7: the target only ever receives values that went through the floor and the clamps.  A write to the target's demand
+    (or to the own record) on a FAILURE path -- inside an except handler or a finally block -- hands it something else: a
+    'rollback' to the unrounded internal demand, limited against the supply seen at an earlier write"""
+    prog = chk.program
+    rule = "O6.7"
+    cls = prog.cls(STD)
+    n = 0
+    ok = True
+    for fis in cls.methods.values():
+        for fi in fis:
+            for t in ast.walk(fi.node):
+                if not isinstance(t, ast.Try):
+                    continue
+                blocks = [(h.body, "except %s" % (util.unparse(h.type) if h.type else "<bare>")) for h in t.handlers] + ([(t.finalbody, "finally")] if t.finalbody else [])
+                for body, what in blocks:
+                    for st in body:
+                        for a in ast.walk(st):
+                            tg = a.targets if isinstance(a, ast.Assign) else ([a.target] if isinstance(a, (ast.AugAssign, ast.AnnAssign)) else [])
+                            for x in tg:
+                                n += 1
+                                chk.count()
+                                if isinstance(x, ast.Attribute) and x.attr == "demand" and util.unparse(x.value).endswith("target"):
+                                    chk.bad(rule, fi.qual, "the target's demand is written on a failure path (`%s`: %s): that value has not passed the granularity floor and the clamps against the CURRENT supply, so after a failed write the target holds a demand outside the limits the decorator guarantees" % (what, util.unparse(a)[:60]), node=a, stmt="target-written-on-failure-path")
+                                    ok = False
+    if ok:
+        chk.ok(rule, cls.qual, "no write to the target's demand inside an except handler or finally block (%d stores on failure paths looked at)" % n)
+
+
 def run(chk):
+    chk.guard("O6.7", STD, failure_paths_write_nothing, chk)
     chk.guard("O6.2", STD, sanitiser_order, chk)
     chk.guard("O6.5", STD, constructor, chk)
     chk.guard("O6.6", STD, overrides, chk)
